@@ -365,10 +365,12 @@ func init() {
 		data := t.havocTemp("brdata", ArrayOf(SInt, SInt), nil)
 		k := &Var{"k!b", SInt}
 		t.cur.Assume(&Quant{Forall: true, Vars: []*Var{k}, Body: Implies(And(ILe(IntLit(0), k), ILt(k, th.SLen(b))), Eq(Select(data, k), Select(mem, IAdd(th.SPtr(b), k)))), Pats: [][]Expr{{Select(data, k)}}})
-		t.cur.Assign(t.rdData(), Store(t.rdData(), o, data))
-		t.cur.Assign(t.rdLen(), Store(t.rdLen(), o, th.SLen(b)))
-		t.cur.Assign(t.rdPos(), Store(t.rdPos(), o, IntLit(0)))
-		t.cur.Assign(t.rdErr(), Store(t.rdErr(), o, IntLit(knownErrorGlobals["io.EOF"])))
+		// the ghost stream is keyed by the io.Reader interface value this pointer converts to
+		key := t.boxPtr(o, t.eng.typeID(c.Signature().Results().At(0).Type()))
+		t.cur.Assign(t.rdData(), Store(t.rdData(), key, data))
+		t.cur.Assign(t.rdLen(), Store(t.rdLen(), key, th.SLen(b)))
+		t.cur.Assign(t.rdPos(), Store(t.rdPos(), key, IntLit(0)))
+		t.cur.Assign(t.rdErr(), Store(t.rdErr(), key, IntLit(knownErrorGlobals["io.EOF"])))
 		return []sval{{e: o, typ: c.Signature().Results().At(0).Type()}}
 	}
 }
